@@ -445,7 +445,23 @@ func genC15(g *G, n int, out io.Writer) {
 	for i := 0; i < n; i++ {
 		customSteps = i%3 == 1
 		var base C01Case
-		if i%2 == 0 {
+		if i%10 == 3 {
+			// directed: cardinality of an annotation (custom domain property) step, alone and before another step, on a graph
+			// that carries such annotations - the verdicts depend on the step being recognised under whatever alias names it
+			customSteps = true
+			base = C01Case{Op: "c15", Id: i, Stream: "graphcount"}
+			w := PCustom("wadus", false)
+			base.Atoms = []Atom{{Kind: "minCount", Path: w, Arg: i64p(1)}, {Kind: "maxCount", Path: Path{Seq: []Path{w, PP("p0", false)}}, Arg: i64p(0)},
+				{Kind: "minCount", Path: PCustom("maturity", false), Arg: i64p(1)}}
+			base.Validations = []Validation{{Name: "v0", Class: NS + "T", Rule: Rule{Atom: ip(0)}}, {Name: "v1", Class: NS + "T", Rule: Rule{Or: []Rule{{Atom: ip(1)}, {Not: &Rule{Atom: ip(2)}}}}},
+				{Name: "v2", Class: NS + "U", Rule: Rule{Not: &Rule{Atom: ip(0)}}}}
+			for tries := 0; tries < 20; tries++ {
+				base.Graph = g.graphA(4+g.n(4), 0.5, true)
+				if strings.Contains(base.Graph.RenderFlat(), "\"wadus\"") {
+					break
+				}
+			}
+		} else if i%2 == 0 {
 			// propositional skeleton over classical atoms, whole truth table (deeper and wider formulas)
 			base = genC01TruthTable(g, i)
 			customSteps = false
